@@ -422,6 +422,9 @@ func genTable(r *simrt.RNG, used map[string]bool, srs gpkgh.SRS, t tms20.TileMat
 				if r.Chance(0.1) {
 					v = int64(r.Uint64()>>2) - (1 << 61) // beyond 2^53
 				}
+				if r.Chance(0.03) {
+					v = []int64{math.MaxInt64, math.MinInt64, 0, -1}[r.Intn(4)]
+				}
 				row.Vals = append(row.Vals, gpkgh.IntVal(v))
 			case "BOOLEAN":
 				row.Vals = append(row.Vals, gpkgh.IntVal(int64(r.Intn(2))))
@@ -440,6 +443,9 @@ func genTable(r *simrt.RNG, used map[string]bool, srs gpkgh.SRS, t tms20.TileMat
 				if r.Chance(0.15) {
 					v = float64(int64(r.Uint64()%2001) - 1000) // a whole number stays REAL
 				}
+				if r.Chance(0.03) {
+					v = []float64{1e308, -1e308, 5e-324, 0.1}[r.Intn(4)] // (SQLite does not keep the sign of -0.0)
+				}
 				row.Vals = append(row.Vals, gpkgh.FloatVal(v))
 			default:
 				v := fmt.Sprintf("%s-%d-%x", tb.Name, i, r.Uint64()%4096)
@@ -450,6 +456,10 @@ func genTable(r *simrt.RNG, used map[string]bool, srs gpkgh.SRS, t tms20.TileMat
 					v = strconv.Itoa(r.Intn(100000)) // text that looks like a number
 				case 2:
 					v = "1e" + strconv.Itoa(r.Intn(9))
+				case 3:
+					v = "äöü € 漢字 it's \"quoted\"\nsecond line\t" + v
+				case 4:
+					v = strings.Repeat(v+" ", 200+r.Intn(800)) // a long text
 				}
 				row.Vals = append(row.Vals, gpkgh.TextVal(v))
 			}
